@@ -55,6 +55,13 @@
      * copies start with empty backup stacks (as built they inherit a copy of the source's; it is never popped
        because a StateRetainer belongs to the object it was opened on) and are writeable (readOnly is not part of
        the copied state).
+     * Enter empties the caches of everything it covers (Composite.backUp / Material.backUp do); the statement only
+       asks that nothing cached inside survives Exit.  The component a scope is opened ON owns a material too.
+
+   TLC IDIOMS.  Step properties are evaluated by every action on its own step and their names collected in `bad`
+   (invariant form  "X" \notin bad ; cheaper than [][..]_v and independent of the VIEW).  `\E x \in {e} : ...`
+   binds e once (TLC re-evaluates LET definitions at every use).  LevelOK stops the search at MaxLevel without
+   computing successors that the level constraint would discard.
 *)
 EXTENDS Integers, Sequences, FiniteSets, TLC, Json, SequencesExt, FiniteSetsExt
 
